@@ -52,9 +52,14 @@ func travScenarios() []*tScenario {
 	add(&tScenario{Name: "mapped-cycle", Mapped: true, K: 3, Alpha: 2, Peers: map[int]tPeer{
 		1: {Claim: 1, Nodes: []tContact{tc(2, 2), tc(3, 3)}}, 2: {Claim: 2, Nodes: []tContact{tc(1, 1), tc(3, 3)}}, 3: {Claim: 3, Nodes: []tContact{tc(1, 1), tc(2, 2)}}},
 		Adds: [][]tContact{{tc(1, 1)}}, Polls: 1, Expect: []byte{1, 2, 3}})
+	// a farther candidate (6) is left over when the set is full; then a closer contact arrives late
 	add(&tScenario{Name: "late-add", K: 1, Alpha: 1, Peers: map[int]tPeer{
-		9: {Claim: 9, Nodes: []tContact{tc(4, 4)}}, 4: {Claim: 4}, 2: {Claim: 2}},
-		Adds: [][]tContact{{tc(0, 9)}, {tc(2, 2), tc(7, 7)}}, Polls: 2, Expect: []byte{2}})
+		9: {Claim: 9, Nodes: []tContact{tc(4, 4), tc(6, 6)}}, 4: {Claim: 4}, 2: {Claim: 2}, 6: {Claim: 6}},
+		Adds: [][]tContact{{tc(0, 9)}, {tc(2, 2), tc(7, 7)}}, Polls: 2})
+	// the single-contact API AddNode, with a filtered and an acceptable address
+	add(&tScenario{Name: "add-node-api", K: 2, Alpha: 2, Peers: map[int]tPeer{
+		9: {Claim: 9, Nodes: []tContact{tc(4, 4)}}, 4: {Claim: 4}, 2: {Claim: 2}, 3: {Claim: 3}},
+		Adds: [][]tContact{{tc(0, 9)}}, AddOne: []tContact{tc(2, 2), tc(3, 3)}, RejectAddr: map[int]bool{2: true}, Polls: 1})
 	add(&tScenario{Name: "multi-id", K: 2, Alpha: 2, Peers: map[int]tPeer{
 		8: {Claim: 8, Nodes: []tContact{tc(1, 9), tc(2, 9), tc(3, 9)}}, 9: {Claim: 1}},
 		Adds: [][]tContact{{tc(0, 8)}}, Polls: 1})
